@@ -40,7 +40,14 @@ func (c *Ctx) pairRule(rule, reader, writer string, skip map[string]bool) (r, w 
 	if skip["@uefi-body"] {
 		rl, wl = normaliseUEFIBody(rl, false), normaliseUEFIBody(wl, true)
 	}
+	rl, wl = collapseUnnamedRuns(rl), collapseUnnamedRuns(wl)
 	ok, det := sameLeaves(rl, wl, skip)
+	if !ok {
+		if why := unattributedBytes(rl, wl); why != "" {
+			c.R.Infof(rule, name(r), "pair:"+shortID(name(w)), c.Pos(r.Pos()), "not decided for this shape: "+why)
+			return
+		}
+	}
 	c.R.Check(ok, rule, name(r), "pair:"+shortID(name(w)), c.Pos(r.Pos()),
 		"reader and writer agree on fields, order, widths and byte order ("+fmt.Sprint(len(rl))+" wire positions)", det)
 	return
@@ -62,6 +69,7 @@ func (c *Ctx) layoutRule(rule string, fn *ssa.Function, isRead bool, filter func
 		c.R.Infof(rule, name(fn), "layout:"+specName, c.Pos(fn.Pos()), "not decided for this shape: the wire sequence cannot be extracted ("+why+")")
 		return
 	}
+	ls = collapseUnnamedRuns(ls)
 	var got []leaf
 	for _, l := range ls {
 		if l.alias && isRead {
@@ -92,7 +100,48 @@ func (c *Ctx) layoutRule(rule string, fn *ssa.Function, isRead bool, filter func
 			det = fmt.Sprintf("position %d is %s, %s has %s (%d bytes, little endian)", k+1, got[k], specName, want[k].name, want[k].width)
 		}
 	}
+	if !ok {
+		if why := unattributedBytes(got, nil); why != "" {
+			c.R.Infof(rule, name(fn), "layout:"+specName, c.Pos(fn.Pos()), "not decided for this shape: "+why)
+			return
+		}
+	}
 	c.R.Check(ok, rule, name(fn), "layout:"+specName, c.Pos(fn.Pos()), "wire layout equals "+specName, det)
+}
+
+// unattributedBytes: the extracted sequence contains a run of bytes that the
+// extractor could not attribute to fields — a fixed buffer that is read or
+// written as a whole and decoded/filled by code it does not follow (a helper
+// that receives a sub-slice, a generic function). A comparison that fails on
+// such a sequence says nothing about the code.
+func unattributedBytes(a, b []leaf) string {
+	for _, ls := range [][]leaf{a, b} {
+		for _, l := range ls {
+			if l.id == "(skipped)" && l.width >= 2 {
+				return fmt.Sprintf("a run of %d bytes is packed or unpacked by code the wire extractor does not attribute to fields", l.width)
+			}
+		}
+	}
+	return ""
+}
+
+// collapseUnnamedRuns drops an unnamed variable-length run next to a named one:
+// alternative ways of reading the same bytes (a fast path and a general path on
+// exclusive branches) appear twice in program order.
+func collapseUnnamedRuns(ls []leaf) []leaf {
+	var out []leaf
+	for k, l := range ls {
+		if l.width < 0 && (l.id == "bytes" || l.id == "value") {
+			if k+1 < len(ls) && ls[k+1].width < 0 && ls[k+1].id != "bytes" && ls[k+1].id != "value" {
+				continue
+			}
+			if k > 0 && ls[k-1].width < 0 && ls[k-1].id != "bytes" && ls[k-1].id != "value" {
+				continue
+			}
+		}
+		out = append(out, l)
+	}
+	return out
 }
 
 // usedResults (G2): the value result of every sub-decoder call reaches the
